@@ -662,7 +662,8 @@ func build(s *Spec, work string) (*Meta, error) {
 			}
 		} else {
 			m.HookDiffers = diffDirs(out, hookOut)
-			if _, err := os.Stat(out + "_tmp"); err == nil {
+			left, _ := filepath.Glob(filepath.Join(out, "_co_tmp*"))
+			if _, err := os.Stat(out + "_tmp"); err == nil || len(left) > 0 {
 				m.HookDiffers = append(m.HookDiffers, "intermediate directory left behind by Compile")
 			}
 		}
